@@ -514,14 +514,38 @@ def plan_C10(ctx):
     ctx.family, ctx.tracespec, ctx.env_flags = "spline", "TraceSpline", env
     ctx.samples = [b[:4] for b in batches[:2]]
     replay_and_validate(ctx, exe, batches, "TraceSpline", env)
+    # optimizer workspaces reused across evaluations of different problems, sizes and optimizers: same bits as a fresh workspace
+    wexecs = []
+    for rep in range(4 if ctx.quick() else 60):
+        for order in gen.ORDERS:
+            for fam in FAMILIES:
+                D = r.choice([1, 2, 3])
+                ps = [gen.OptProblem(r, order, D, n, fam[0], fam[1]) for n in r.sample([1, 2, 3, 4], 3)]
+                cmds = [{"op": "reset"}]
+                for q, p in enumerate(ps):
+                    cmds += p.cmds_setup(q + 1)
+                evs = []
+                for q, p in enumerate(ps):
+                    for _ in range(2):
+                        evs.append((q + 1, gen.hv(p.x(r)), gen.cost_params(r), r.choice([2, 3])))
+                seq = evs + r.sample(evs, len(evs))
+                for (oid, x, cp, ov) in seq:                       # one shared external workspace, sizes growing and shrinking
+                    cmds.append({"op": "evaluate", "obj": oid, "x": x, "ws": 9, "costs": cp, "overload": ov})
+                for n_, (oid, x, cp, ov) in enumerate(evs):        # the same calls on fresh workspaces and on the built-in one
+                    cmds.append({"op": "evaluate", "obj": oid, "x": x, "ws": 20 + n_, "costs": cp, "overload": ov})
+                    cmds.append({"op": "evaluate", "obj": oid, "x": x, "ws": 0, "costs": cp, "overload": ov})
+                wexecs.append((len(cmds) * D * (order + 1), cmds))
+    ctx.family, ctx.tracespec, ctx.env_flags = "opt", "TraceOpt", {"VJ_EXACT": "0"}
+    replay_and_validate(ctx, vbuild.opt_replay(), balanced(wexecs, 16 if ctx.quick() else 48), "TraceOpt", {"VJ_EXACT": "0"}, label="w")
     return finish(ctx, "model_checking",
                   "TLC explores the life cycle of spline objects (2 objects, sizes 1..3, 2 data variants, both overloads, all query kinds, copy, "
                   "assign) to depth %d with the factor caches modelled entry by entry (ReadsFresh) and rejects three broken twins; one script per "
                   "transition of the abstract graph is generated, a class-balanced seeded sample is expanded with concrete data (variant 2 = "
                   "arbitrary positive durations) and an observation suffix, replayed on all three orders, and every observation must carry the "
-                  "same bits as every other observation with the same inputs (memo kept across executions)" % (depth + 1),
+                  "same bits as every other observation with the same inputs (memo kept across executions); optimizer workspaces are shared by "
+                  "optimizers of different segment counts and re-used in random order, and must give the bits of fresh workspaces" % (depth + 1),
                   TRUSTED, ["bit identity between observations of one binary built -O2 -ffp-contract=off"],
-                  props_judged={"C10", "C05", "C11"})
+                  props_judged={"C10", "C05", "C11", "C12"})
 
 
 def tlc_generate_spline(ctx, order):
@@ -855,6 +879,14 @@ def c20_execs(r, quick):
                     cases.append((s0, s0 + k * dt, dt))
                     cases.append((s0, math.nextafter(s0 + k * dt, math.inf), dt))
                     cases.append((s0, math.nextafter(s0 + k * dt, -math.inf), dt))
+                # the last regular sample falls short of the end by slightly MORE than the 1e-6 end tolerance (absolute, whatever the
+                # magnitude of the times): the end must then be appended
+                for base in (s0, 1000.0 + s0, -1.0e5 + s0, 1.0e6 + s0):
+                    for delta in (1.5e-6, 4e-6, 3e-5, 1e-3):
+                        k = r.choice([3, 7, 20])
+                        dt = r.choice([0.125, 0.1, 0.37])
+                        cases.append((base, base + k * dt + delta, dt))
+                        cases.append((base, base + k * dt - delta, dt))
                 for (s, e, dt) in cases:
                     if dt <= 0 or (e is not None and e < s):
                         continue
@@ -1037,9 +1069,12 @@ def c07_execs(r, quick, rec):
                     K = 8 if rep % 2 == 0 else 64
                 p = gen.OptProblem(r, order, D, N, tm, sm, flags=flag_list(bits), K=K, rho=(0.0, 0.5, 2.0)[(k + rep) % 3])
                 cmds = [{"op": "reset"}] + p.cmds_setup(1, how="durs" if k % 3 else "pts")
-                for e in range(1 if quick else 2):
-                    cmds.append({"op": "evaluate", "obj": 1, "x": gen.hv(p.x(r)), "ws": (0, 3)[(k + e) % 2], "costs": gen.cost_params(r),
-                                 "overload": 3 if (k + e) % 4 else 2, "rec": bool(rec and K <= 8)})
+                # several evaluations per optimizer; workspaces (built-in = 0, external = 3) are REUSED across calls with other
+                # decision vectors and other cost functors: per-call buffers must be re-initialised by every call
+                wss = (0, 0, 3, 3) if k % 2 else (3, 0, 3, 0)
+                for e in range(3 if quick else 4):
+                    cmds.append({"op": "evaluate", "obj": 1, "x": gen.hv(p.x(r)), "ws": wss[e], "costs": gen.cost_params(r),
+                                 "overload": 3 if (k + e) % 4 else 2, "rec": bool(rec and K <= 8 and e == 0)})
                 execs.append((N * D * (order + 1) * (K + 4), cmds))
     return execs
 
@@ -1091,11 +1126,23 @@ def c09_config_execs(r, quick):
     return execs
 
 
-OPT_FLAGSETS = {0: [False, True, False, False, False, False, True, False], 1: [True, False, True, True, True, True, False, True]}
+# pairs of concrete flag settings standing for the two abstract settings of the reconfiguration model; they include pairs
+# that differ only by WHICH end point / boundary block is optimised (same counts), so that a cache keyed on counts is exposed
+OPT_FLAGPAIRS = (
+    ([False, True, False, False, False, False, True, False], [True, False, True, True, True, True, False, True]),
+    ([True, False, False, False, False, False, False, False], [False, False, False, False, True, False, False, False]),     # start_p <-> end_p
+    ([True, True, False, False, False, False, False, False], [False, False, False, False, True, True, False, False]),       # start side <-> end side
+    ([False, True, False, False, False, False, False, False], [False, False, False, False, False, True, False, False]),     # start_v <-> end_v
+    ([False, False, True, False, False, False, False, True], [False, False, False, True, False, False, True, False]),       # sa,ej <-> sj,ea
+    ([True, False, False, False, True, False, False, False], [False, False, False, False, False, False, False, False]),
+)
 
 
 def expand_opt_script(r, hist, order, D, tm, sm, exact):
     """abstract history from MCOptObj -> concrete commands; problems v=1 (N=1), v=2 (N=2), v=3 (N=2, invalid: a NaN waypoint)"""
+    OPT_FLAGSETS = dict(enumerate(OPT_FLAGPAIRS[(len(hist) + sum(len(a) for a in hist) + r.randrange(2)) % len(OPT_FLAGPAIRS)]))
+    if r.random() < 0.5:
+        OPT_FLAGSETS = {0: OPT_FLAGSETS[1], 1: OPT_FLAGSETS[0]}
     cmds = [{"op": "reset"}]
     probs = {}
     cur = {}       # obj -> OptProblem-like state (problem, flags, smap user?, tmap user?)
@@ -1133,9 +1180,11 @@ def expand_opt_script(r, hist, order, D, tm, sm, exact):
         elif op == "map_new":
             # one abstract user map = one user time map and one user spatial map (ids 1 and 101)
             cmds.append({"op": "tmap_new", "map": a["map"], "scale": gen.hx(0.75)})
+            cmds.append({"op": "smap_new", "map": a["map"], "gain": gen.hx(0.5)})
             maps.add(a["map"])
         elif op == "map_mutate":
             cmds.append({"op": "tmap_set", "map": a["map"], "scale": gen.hx(r.choice([0.5, 1.25, 1.5]))})
+            cmds.append({"op": "smap_set", "map": a["map"], "gain": gen.hx(r.choice([0.125, 0.75, -0.5]))})
         elif op in ("get_dim", "init_guess"):
             st = cur[a["obj"]]
             if st["p"] is not None and (op == "get_dim" or st["valid"]):
@@ -1172,20 +1221,35 @@ def opt_eval_cmd(r, oid, st, sm, tm, ws):
     return {"op": "evaluate", "obj": oid, "x": gen.hv(x), "ws": ws, "costs": gen.cost_params(gen.Rng(5)), "overload": 3}
 
 
-def opt_history_execs(ctx, r, nsample, families, exact=True, maxops=3):
+def opt_history_execs(ctx, r, nsample, families, exact=True, maxops=3, ids="{1, 2}"):
     from vcheck import tlc_generate
-    scripts = tlc_generate(ctx, "MCOptObj", mcoptobj_cfg(maxops, True), "optobj", workers=1, timeout=900)
+    scripts = tlc_generate(ctx, "MCOptObj", mcoptobj_cfg(maxops, True, ids=ids), "optobj" + ids.replace(" ", "").replace(",", "_").strip("{}"), workers=1, timeout=900)
+    READERS = ("get_dim", "init_guess", "evaluate")
+    SETTERS = ("set_flags", "set_smap", "set_init", "opt_assign")
+
+    def stale_risk(h):
+        """a setter that changes the layout AFTER a reader has built the cache: the histories a lazily rebuilt cache is exposed to"""
+        seen_reader = False
+        for a in h:
+            if a["op"] in READERS:
+                seen_reader = True
+            elif a["op"] in SETTERS and seen_reader:
+                return True
+        return False
     groups = {}
     for h in scripts:
         last = h[-1]
-        groups.setdefault((last["op"], len(h), last.get("own", ""), last.get("map", "")), []).append(h)
-    per = max(1, nsample // max(1, len(groups)))
+        groups.setdefault((last["op"], len(h), last.get("own", ""), last.get("map", ""), stale_risk(h)), []).append(h)
+    # half of the budget goes to the histories with a setter after a reader, the rest is spread evenly over all classes
+    nrisky = max(1, len([g for g in groups if g[-1]]))
+    per = max(1, nsample // (2 * max(1, len(groups))))
+    per_risky = max(per, nsample // (2 * nrisky))
     execs = []
     k = 0
     for g in sorted(groups, key=str):
         hs = groups[g]
         r.shuffle(hs)
-        for h in hs[:per]:
+        for h in hs[:(per_risky if g[-1] else per)]:
             k += 1
             tm, sm = families[k % len(families)]
             order = gen.ORDERS[k % 3]
@@ -1201,7 +1265,9 @@ def plan_C09(ctx):
     mc_optobj(ctx)
     r = gen.Rng(ctx.seed * 1000003 + 9)
     execs = c09_config_execs(r, ctx.quick())
-    hexecs = opt_history_execs(ctx, r, 200 if ctx.quick() else 5000, FAMILIES)
+    # reconfiguration histories: two optimizers up to 4 calls, and ONE optimizer up to 6 calls (setter / query / setter / query ...)
+    hexecs = opt_history_execs(ctx, r, 200 if ctx.quick() else 5000, FAMILIES) + \
+        opt_history_execs(ctx, r, 1200 if ctx.quick() else 20000, FAMILIES, maxops=5, ids="{1}")
     ctx.samples = [[c for c in execs[0][1] if c.get("op") in ("set_flags", "get_dim", "evaluate")][:3]]
     b1 = balanced(execs, 48 if ctx.quick() else 128)
     exe = vbuild.opt_replay()
